@@ -186,8 +186,8 @@ def run(repo: Repo, L: Ledger, tier: str):
     if dof is not None:
         wl = [n for n in dof.node.body if isinstance(n, ast.While)]
         pre = [n for n in dof.node.body if not isinstance(n, ast.While)]
-        ok5 = len(wl) == 1 and isinstance(wl[0].test, ast.Name) and all(isinstance(n, ast.Assign | ast.Expr) and not any(isinstance(c, ast.Call) and isinstance(c.func, ast.Attribute) and c.func.attr in ("apply", "discard_start", "discard_end") for c in walk_shallow(n)) for n in pre)
-        if ok5:
+        ok5 = len(wl) == 1 and (isinstance(wl[0].test, ast.Name) or norm(wl[0].test) == "self.fragments_found_more_than_once") and all(isinstance(n, ast.Assign | ast.Expr) and not any(isinstance(c, ast.Call) and isinstance(c.func, ast.Attribute) and c.func.attr in ("apply", "discard_start", "discard_end") for c in walk_shallow(n)) for n in pre)
+        if ok5 and isinstance(wl[0].test, ast.Name):
             src = [norm(n.value) for n in pre if isinstance(n, ast.Assign) and is_name(n.targets[0], wl[0].test.id)]
             ok5 = src == ["self.fragments_found_more_than_once"]
     L.check(ok5, "R5", dof.short if dof else "discard_overhanging_fragments", "loop guarded by the (empty) shared map", "the resolve phase can act although no contig is shared", dof.loc() if dof else "")
